@@ -30,38 +30,13 @@ theorem witness (as : List Action) {P : State → Prop} (h : HoldsAfter as P) : 
   obtain ⟨s, hr, hp⟩ := h
   exact ⟨s, reachable_of_run as Reachable.init hr, hp⟩
 
-/-- `run` that also checks that every Cleanup delete is matched -/
-def runM (s : State) : List Action → Option State
-  | [] => some s
-  | a :: as =>
-    if a.matched s then
-      match step s a with
-      | some s' => runM s' as
-      | none => none
-    else none
+/-- `P` holds in the state `as` leads to under the OLD code (Cleanup before fix d6561d4) -/
+def HoldsAfterOld (as : List Action) (P : State → Prop) : Prop := ∃ s, runOld init as = some s ∧ P s
 
-theorem reachableM_of_runM {s s' : State} (as : List Action) (h : ReachableM s) (hr : runM s as = some s') : ReachableM s' := by
-  induction as generalizing s with
-  | nil => simp [runM] at hr; subst hr; exact h
-  | cons a as ih =>
-    simp only [runM] at hr
-    split at hr
-    next hm =>
-      split at hr
-      next s1 h1 => exact ih (ReachableM.step a h hm h1) hr
-      next => simp at hr
-    next => simp at hr
-
-def HoldsAfterM (as : List Action) (P : State → Prop) : Prop := ∃ s, runM init as = some s ∧ P s
-
-instance (as : List Action) (P : State → Prop) [DecidablePred P] : Decidable (HoldsAfterM as P) :=
-  match h : runM init as with
+instance (as : List Action) (P : State → Prop) [DecidablePred P] : Decidable (HoldsAfterOld as P) :=
+  match h : runOld init as with
   | some s => if hp : P s then isTrue ⟨s, h, hp⟩ else isFalse (fun ⟨s', h', hp'⟩ => by rw [h] at h'; cases h'; exact hp hp')
   | none => isFalse (fun ⟨s', h', _⟩ => by rw [h] at h'; cases h')
-
-theorem witnessM (as : List Action) {P : State → Prop} (h : HoldsAfterM as P) : ∃ s, ReachableM s ∧ P s := by
-  obtain ⟨s, hr, hp⟩ := h
-  exact ⟨s, reachableM_of_runM as ReachableM.init hr, hp⟩
 
 instance (s : State) : Decidable (Timely s) := by unfold Timely; infer_instance
 instance (s : State) : Decidable (Quiescent s) := by unfold Quiescent; infer_instance
